@@ -1,8 +1,11 @@
 pub mod c03;
 pub mod c04;
 pub mod c05;
+pub mod c06;
 pub mod c10;
 pub mod c11;
+pub mod c12;
+pub mod c18;
 pub mod c19;
 
 use crate::core::Prop;
@@ -12,8 +15,11 @@ pub fn by_id(id: &str) -> Option<Box<dyn Prop>> {
         "C03" => Some(Box::new(c03::C03)),
         "C04" => Some(Box::new(c04::C04)),
         "C05" => Some(Box::new(c05::C05)),
+        "C06" => Some(Box::new(c06::C06)),
         "C10" => Some(Box::new(c10::C10)),
         "C11" => Some(Box::new(c11::C11)),
+        "C12" => Some(Box::new(c12::C12)),
+        "C18" => Some(Box::new(c18::C18)),
         "C19" => Some(Box::new(c19::C19)),
         _ => None,
     }
